@@ -144,7 +144,10 @@ class C18Check(Check):
         res["digest"] = h.hexdigest()
         return res
 
-    max_minimise_tests = {"quick": 6, "thorough": 12}
+    # a divergence that stems from hidden entropy is itself random: no shrinking beyond isolating the configuration
+    # (a candidate that "fails" once may pass the next time), and the replay is attempted up to three times
+    max_minimise_tests = {"quick": 0, "thorough": 0}
+    replay_attempts = 3
 
     def pre_minimize(self, plan, violation):
         j = violation.get("op_index")
